@@ -76,12 +76,13 @@ type fnInfo struct {
 
 // unit carries the per-file state shared by the function translators.
 type unit struct {
-	fset   *token.FileSet
-	info   *types.Info
-	pkg    *types.Package
-	base   string // base name of the source file, for positions
-	funcs  map[*types.Func]*fnInfo
-	extern map[string]map[string]*FuncDef
+	fset       *token.FileSet
+	info       *types.Info
+	pkg        *types.Package
+	base       string // base name of the source file, for positions
+	funcs      map[*types.Func]*fnInfo
+	extern     map[string]map[string]*FuncDef
+	externQual map[string]string
 }
 
 // pos renders a source position as "<file base name>:<line>".
@@ -147,6 +148,9 @@ type Options struct {
 	// Extern maps an import path to the translated functions of that package
 	// (by Go name): a call pkg.F(...) becomes a call of the generated go_F.
 	Extern map[string]map[string]*FuncDef
+	// ExternQual maps an import path to the Coq module qualifier of its
+	// generated definitions ("WireGo."), so that equal names do not clash.
+	ExternQual map[string]string
 	// Requires are extra "From PB Require Import" module names of the output.
 	Requires []string
 	// PkgPath is the import path given to the type-checked package (default: its name).
@@ -209,7 +213,7 @@ func TranslateFile(file string, opts *Options) (*Unit, error) {
 	if nerr > 0 {
 		out.Notes = append(out.Notes, fmt.Sprintf("%d type-check error(s) in %s ignored", nerr, base))
 	}
-	u := &unit{fset: fset, info: info, pkg: pkg, base: base, funcs: map[*types.Func]*fnInfo{}, extern: opts.Extern}
+	u := &unit{fset: fset, info: info, pkg: pkg, base: base, funcs: map[*types.Func]*fnInfo{}, extern: opts.Extern, externQual: opts.ExternQual}
 	out.Pkg = pkg
 	out.Requires = opts.Requires
 
